@@ -120,7 +120,7 @@ func c11EndSpacing(c *core.Check) {
 
 // c11DeadArithmetic (R15): no arithmetic result of the layout and text packages is dropped.
 func c11DeadArithmetic(c *core.Check) {
-	r := c.Rule("R15", "no arithmetic result of html/layout, html/boxes and text is unused: an update of a by-value parameter (positionX += dx in a helper) is lost for the caller, which goes on placing boxes at the old position", 200)
+	r := c.Rule("R15", "no arithmetic result of html/layout, html/boxes and text is unused: an update of a by-value parameter (positionX += dx in a helper) is lost for the caller, which goes on placing boxes at the old position", 225)
 	deadArithmeticRule(c, r, map[string]string{
 		"html/layout.inlineOutOfFlowLayout | maxX - _ #1": "redundant, not lost: splitInlineBox subtracts the margin width of every float placed by this call from its own maxX right after the call (the same quantity, for right floats)",
 	}, "html/layout", "html/boxes", "text", "text/draw")
